@@ -505,4 +505,7 @@ def run(tier):
         if n_req == 0:
             raise AnalysisBroken("C07.R5: %s no longer tests require_extended_master_secret" % name)
     res.floor("C07.R5", 6)
+    # extended master secret on session-id resumption (RFC 7627 5.3): shared with C14
+    from rules import C14
+    C14.rule_R1e(res, prog, prop=PROP, rid="C07.R5e")
     return res.finish()
